@@ -482,7 +482,7 @@ func wantUnder(c *kit.Ctx, prefix string) bool {
 
 // ---- fault enumeration ----
 
-var faultOutcomes = []sim.Outcome{sim.ServerError, sim.Timeout, sim.ErrorAfter, sim.NotServed, sim.Unavailable}
+var faultOutcomes = []sim.Outcome{sim.ServerError, sim.Timeout, sim.ErrorAfter, sim.NotServed, sim.Unavailable, sim.Conflict}
 
 // enumerate hits every call index of op (run on a fork of base) with every outcome, then
 // retries the op without faults and compares the resulting ownership state with the
@@ -773,7 +773,7 @@ func main() {
 	}
 	c := kit.New("C16", "exploration")
 	c.Extra("level_detail", "exploration + fault_enumeration")
-	c.Rule = "single: a generated set of 1-6 objects a Provider (CRDs of several groups, some with Webhook conversion, webhook configurations) or Configuration (XRDs, Compositions) installs, each with a pre-existing cluster object of class absent / uncontrolled / plain-owned / already controlled by this revision / controlled by the previous revision / released by the previous revision / controlled by another package's revision / controlled by a foreign owner / rejected by scripted admission (absent or existing), established once as active or inactive revision and once more; seq: rev1 installs S1, rev2 ships S2 (drops, keeps, adds; optionally one un-takeable rev2-only object), then upgrade and rollback (thorough: sometimes a third phase) with the reconciles of the two revisions run in each of 8 programs per phase (all 6 orders of deactivate / activate / inactive-establish-after-status-loss, plus the two orders without the status loss), the GC actor after every step, another package deleted mid-way; fault: ServerError / Timeout / ErrorAfter at every call index of Establish (single cases) and of ReleaseObjects / Establish inside an upgrade, then a clean retry. distinct = generated case (+ programs, + fault position); non-trivial = >= 2 objects of which >= 1 pre-exists with an owner, or the history has an activate->deactivate transition."
+	c.Rule = "single: a generated set of 1-6 objects a Provider (CRDs of several groups, some with Webhook conversion, webhook configurations) or Configuration (XRDs, Compositions) installs, each with a pre-existing cluster object of class absent / uncontrolled / plain-owned / already controlled by this revision / controlled by the previous revision / released by the previous revision / controlled by another package's revision / controlled by a foreign owner / rejected by scripted admission (absent or existing), established once as active or inactive revision and once more; seq: rev1 installs S1, rev2 ships S2 (drops, keeps, adds; optionally one un-takeable rev2-only object), then upgrade and rollback (thorough: sometimes a third phase) with the reconciles of the two revisions run in each of 8 programs per phase (all 6 orders of deactivate / activate / inactive-establish-after-status-loss, plus the two orders without the status loss), the GC actor after every step, another package deleted mid-way; fault: ServerError / Timeout / ErrorAfter / NoKindMatch / 503 / 409 Conflict at every call index of Establish (single cases) and of ReleaseObjects / Establish inside an upgrade, then a clean retry. distinct = generated case (+ programs, + fault position); non-trivial = >= 2 objects of which >= 1 pre-exists with an owner, or the history has an activate->deactivate transition."
 	c.Rule += " intruder: for every call index k of an Establish (single cases and the status-lost inactive Establish) a third party deletes one of the revision's objects right before call k; verdict from the per-write monitors, then a clean retry. Sequences: upgrade, rollback and (half of them) roll forward again."
 	c.Rule += " " + "Same-named objects of different kinds in the reconciler sequences (every manifest referenced); packages of 150-270 CRDs with one un-takeable object (a refused Establish writes nothing)."
 	c.Rule += " " + "Revisions created by the real package manager for short, dotted, 74- and 100-character package names; a deactivated revision reconciled from a cache that still shows it Active."
